@@ -73,7 +73,7 @@ static struct kobj absent_key;
 static cstl_map_t MX, MY; static int aux_keys[3] = { 0, 1, 2 }, aux_vals[3], aux_cookie, reent_bad, reent_calls, aux_clr, aux_clr_bad, aux_live;
 static int cmp_aux(const void *a, const void *b, void *p) { if (p != (void *)&aux_cookie) reent_bad++; return *(const int *)a - *(const int *)b; }
 static void cb_aux_clear(void *it_, void *p) { cstl_map_iterator_t *it = it_; aux_clr++; if (p != (void *)&aux_vals[0] || (int *)it->key < aux_keys || (int *)it->key >= aux_keys + 3) aux_clr_bad++; }
-static void aux_fill(cstl_map_t *m, int n) { int i; for (i = 0; i < n; i++) cstl_map_insert(m, &aux_keys[(i * 2) % 3], &aux_vals[(i * 2) % 3], NULL); }
+static void aux_fill(cstl_map_t *m, int n) { int i; shim_next_tag = 0; for (i = 0; i < n; i++) cstl_map_insert(m, &aux_keys[(i * 2) % 3], &aux_vals[(i * 2) % 3], NULL); }
 static int cmp_key(const void *a, const void *b, void *p)
 {
     int d = INTKEY ? (int)(intptr_t)a - (int)(intptr_t)b : ((const struct kobj *)a)->kv - ((const struct kobj *)b)->kv;
@@ -143,6 +143,7 @@ static void cb_clear(void *it_, void *p)
     if (clr_k[k] == 1 && !INTKEY) __asan_poison_memory_region(&K[k], sizeof K[k]);
 }
 
+static void ser_map(const cstl_map_t *m, char *out, size_t cap);
 static void check_live_nodes(const char *when)
 {
     /* how many allocations back the entries is the implementation's business; what is stated is that clear releases everything (checked at
@@ -162,7 +163,9 @@ static void w_apply(mc_op_t o)
         int k = kobj_of(o), v = OC(o) == O_INSERT ? OB(o) : 0, kv = kvals[k], noit = OC(o) == O_INSERT_NOIT;
         memset(&it, 0x44, sizeof it);
         if (m_key[kv] >= 0) { MC_COUNT(K_INS_EXISTING); if (m_key[kv] != k) MC_COUNT(K_INS_EXISTING_TWIN); }
+        shim_next_tag = kv + 1;          /* whatever the map allocates for this entry is named after the key value */
         SHIM_CALL(ab, rc = cstl_map_insert(&M, KP(k), VP(v), noit ? NULL : &it));
+        shim_next_tag = 0;
         if (ab) break;
         if (m_key[kv] >= 0) {
             MC_CHECK(PC08, rc == 1, "insert of an existing key returned %d, expected 1", rc);
@@ -218,8 +221,8 @@ static void w_apply(mc_op_t o)
         MC_CHECK(PC15 | PC08, cstl_map_size(&M) == 0, "clear left size %zu", cstl_map_size(&M));
         MC_CHECK(PC15 | PC08, shim_nlive() == aux_live, "clear left %d map allocations alive", shim_nlive() - aux_live);
         if (REENT) MC_CHECK(PC15 | PC08, aux_clr_bad == 0 && reent_bad == 0, "a map cleared from inside the clear callback of another map got %d wrong callbacks / lookups from inside a comparison function gave %d wrong answers", aux_clr_bad, reent_bad);
-        MC_CHECK(PC15, M.t.t.root == NULL && M.t.t.size == 0 && M.t.off == M2.t.off && M.t.t.off == M2.t.t.off && M.cmp.f == M2.cmp.f && M.cmp.p == M2.cmp.p
-                       && M.t.t.cmp.func == M2.t.t.cmp.func && M.t.t.cmp.priv == (void *)&M, "after clear the map object is not field-for-field like a freshly initialised one");
+        { char a_[400], b_[400]; ser_map(&M, a_, sizeof a_); ser_map(&M2, b_, sizeof b_);      /* M2: a map object that was initialised the same way and never used */
+          MC_CHECK(PC15, !strcmp(a_, b_), "after clear the map object is not byte-for-byte like a freshly initialised one: %s vs fresh %s", a_, b_); }
         for (i = 0; i < MAXK; i++) { m_key[i] = -1; m_val[i] = -1; }
         m_count = 0;
         break;
@@ -252,34 +255,37 @@ static void w_audit(void)
     for (i = 0; i < NV; i++) MC_CHECK(PC08, V[i].pad == 0x1111 && V[i].tail == 0x2222 && V[i].id == i, "value token %d was modified", i);
 }
 
-/* canonical key: the shape of the map's red-black tree as the PRE/MID/POST/LEAF visit sequence of the public traversal,
- * each node named by the key value found for it, with its colour, stored key object and value token */
-static void *node_of_kv[MAXK];
-static int cb_shape(const void *e, cstl_bintree_visit_order_t ord, void *p)
+/* canonical key: every byte of the map object and of every block the map allocated (named after the key value whose insert allocated it), with
+ * the addresses found in them replaced by names - no member of the library's private structs is mentioned, so a change may rename or reorder them.
+ * The tree shape and the colours are in there (they are what the links and the colour words of the nodes say). */
+static const cstl_map_t *g_mbase;
+static int msym(uintptr_t v)
 {
-    int i, kv = -1;
-    (void)p;
-    for (i = 0; i < NKV; i++) if (node_of_kv[i] == e) kv = i;
-    KB_C("<|>o"[ord]);
-    if (kv < 0) { KB_C('?'); return 0; }
-    KB_U((unsigned)kv);
-    if (ord == CSTL_BINTREE_VISIT_ORDER_MID || ord == CSTL_BINTREE_VISIT_ORDER_LEAF) {
-        const struct cstl_rbtree_node *rn = (const void *)((uintptr_t)e + M.t.off);
-        KB_C(rn->c == CSTL_RBTREE_COLOR_R ? 'r' : 'b');
-    }
-    return mc_kbn > 4000;
+    shim_blk *b;
+    if (g_mbase && v >= (uintptr_t)g_mbase && v < (uintptr_t)(g_mbase + 1)) { KB_C('M'); KB_C('+'); KB_U(v - (uintptr_t)g_mbase); return 1; }
+    if (v >= (uintptr_t)K && v < (uintptr_t)(K + MAXK)) { size_t d = v - (uintptr_t)K; KB_C('K'); KB_U(d / sizeof K[0]); KB_C('+'); KB_U(d % sizeof K[0]); return 1; }
+    if (v >= (uintptr_t)V && v < (uintptr_t)(V + MAXV)) { size_t d = v - (uintptr_t)V; KB_C('V'); KB_U(d / sizeof V[0]); KB_C('+'); KB_U(d % sizeof V[0]); return 1; }
+    if (v == (uintptr_t)&CMPMODE) { KB_C('P'); return 1; }
+    if (v > 0x10000 && (b = shim_find((const void *)v)) != NULL) { KB_C('N'); KB_I(b->tag); KB_C('+'); KB_U(v - (uintptr_t)b->p); return 1; }
+    return 0;
+}
+static void ser_map(const cstl_map_t *m, char *out, size_t cap)
+{
+    size_t save = mc_kbn, n;
+    mc_kbn = 0; g_mbase = m; KB_MEM(m, sizeof *m, msym);
+    n = mc_kbn < cap - 1 ? mc_kbn : cap - 1; memcpy(out, mc_kb, n); out[n] = 0;
+    mc_kbn = save; g_mbase = &M;
 }
 static void w_canon(void)
 {
-    int i;
-    KB_C('M'); KB_U(cstl_map_size(&M)); KB_C(':');
+    int i, bi;
+    g_mbase = &M;
+    KB_C('M'); KB_U(cstl_map_size(&M)); KB_C(':'); KB_MEM(&M, sizeof M, msym); KB_C(';');
     for (i = 0; i < NKV; i++) {
-        cstl_map_iterator_t it; struct kobj probe; probe.kv = i; probe.id = -1;
-        cstl_map_find(&M, PROBE(&probe, i), &it);
-        node_of_kv[i] = it._;
-        if (it._) { KB_U((unsigned)i); KB_C('='); KB_I(kid(it.key)); KB_C('/'); KB_I(vid(it.val)); KB_C(' '); }
+        int any = 0;
+        for (bi = 0; bi < shim_nblk; bi++) if (shim_blks[bi].live && shim_blks[bi].tag == i + 1) { if (!any) { KB_U((unsigned)i); KB_C('{'); any = 1; } else KB_C('|'); KB_MEM(shim_blks[bi].p, shim_blks[bi].sz, msym); }
+        if (any) KB_C('}');
     }
-    cstl_rbtree_foreach(&M.t, cb_shape, NULL, CSTL_BINTREE_FOREACH_DIR_FWD);
     if (REENT) { KB_C('R'); KB_U((unsigned)(reent_bad != 0)); KB_U((unsigned)(aux_clr_bad != 0)); KB_U(cstl_map_size(&MX)); KB_U(cstl_map_size(&MY)); }
     KB_C('m'); for (i = 0; i < NKV; i++) { KB_I(m_key[i]); KB_C('/'); KB_I(m_val[i]); KB_C(' '); }
     for (i = 0; i < NK; i++) if (K[i].pad != 0x1111 || K[i].tail != 0x2222 || K[i].kv != kvals[i]) { KB_C('X'); KB_U((unsigned)i); }
